@@ -1364,7 +1364,14 @@ func (a *Agent) addCandidate(ctx context.Context, cand Candidate, candidateConn 
 		return err
 	}
 
-	return a.loop.Run(ctx, func(context.Context) {
+	var canceledErr error
+	if err := a.loop.Run(ctx, func(context.Context) {
+		// The gathering cycle may have been canceled (Restart) after the check above and before this
+		// task was taken by the loop: its candidates must not leak into the new generation.
+		if canceledErr = ctx.Err(); canceledErr != nil {
+			return
+		}
+
 		set := a.localCandidates[cand.NetworkType()]
 		for _, candidate := range set {
 			if candidate.Equal(cand) {
@@ -1397,7 +1404,11 @@ func (a *Agent) addCandidate(ctx context.Context, cand Candidate, candidateConn 
 		if !cand.filterForLocationTracking() {
 			a.candidateNotifier.EnqueueCandidate(cand)
 		}
-	})
+	}); err != nil {
+		return err
+	}
+
+	return canceledErr
 }
 
 func (a *Agent) setCandidateExtensions(cand Candidate) {
